@@ -638,3 +638,209 @@ def r22_adapters(src):
                            '({ let mut __any = false; for $V in $X.iter() { if $B { __any = true; break; } } __any })')
     n += k
     return src, n
+
+
+# ---------------------------------------------------------------- R24: expansion of a local macro_rules! macro
+
+def find_macro_rules(src, name):
+    """locate `macro_rules! NAME { (MATCHER) => { BODY }; }` (exactly one rule) in src.
+    returns (byte_start, byte_end, matcher_tokens, body_tokens, src) -- token lists are significant tokens."""
+    st = sig(lex(src))
+    hits = []
+    for i, t in enumerate(st):
+        if t.kind == 'id' and t.text == 'macro_rules' and i + 3 < len(st) and st[i + 1].text == '!' and st[i + 2].text == name and st[i + 3].text in ('{', '('):
+            hits.append(i)
+    if len(hits) != 1:
+        raise AnchorError(f'macro_rules! {name}: found {len(hits)} definitions')
+    i = hits[0]
+    o = i + 3
+    c = match_close(st, o)
+    # one rule:  ( MATCHER ) => { BODY } [;]
+    m_o = o + 1
+    if st[m_o].text not in ('(', '[', '{'):
+        raise AnchorError(f'macro_rules! {name}: unsupported rule shape')
+    m_c = match_close(st, m_o)
+    if not (st[m_c + 1].text == '=' and st[m_c + 2].text == '>' and st[m_c + 3].text in ('{', '(', '[')):
+        raise AnchorError(f'macro_rules! {name}: unsupported rule shape')
+    b_o = m_c + 3
+    b_c = match_close(st, b_o)
+    rest = [t for t in st[b_c + 1:c] if not (t.kind == 'p' and t.text == ';')]
+    if rest:
+        raise AnchorError(f'macro_rules! {name}: more than one rule (only single-rule macros are expanded)')
+    end = st[c].end
+    # trailing `;` not part of the item
+    return st[i].start, end, st[m_o + 1:m_c], st[b_o + 1:b_c]
+
+
+def _parse_matcher(toks):
+    """-> list of ('var', name) | ('lit', text) | ('rep', [elements], sep)"""
+    out = []
+    i = 0
+    while i < len(toks):
+        t = toks[i]
+        if t.text == '$' and i + 1 < len(toks) and toks[i + 1].text == '(':
+            c = match_close(toks, i + 1)
+            inner = _parse_matcher(toks[i + 2:c])
+            sep = None
+            j = c + 1
+            if j < len(toks) and toks[j].text not in ('+', '*', '?'):
+                sep = toks[j].text
+                j += 1
+            if j >= len(toks) or toks[j].text not in ('+', '*'):
+                raise AnchorError('macro matcher: unsupported repetition')
+            out.append(('rep', inner, sep))
+            i = j + 1
+            continue
+        if t.text == '$' and i + 3 < len(toks) and toks[i + 2].text == ':':
+            out.append(('var', toks[i + 1].text))
+            i += 4
+            continue
+        out.append(('lit', t.text))
+        i += 1
+    return out
+
+
+def _split_args(src, toks):
+    """split invocation tokens at top-level commas -> list of token lists"""
+    parts, cur, i = [], [], 0
+    while i < len(toks):
+        t = toks[i]
+        if t.kind == 'p' and t.text in ('(', '[', '{'):
+            c = match_close(toks, i)
+            cur.extend(toks[i:c + 1])
+            i = c + 1
+            continue
+        if t.kind == 'p' and t.text == ',':
+            parts.append(cur)
+            cur = []
+        else:
+            cur.append(t)
+        i += 1
+    if cur:
+        parts.append(cur)
+    return parts
+
+
+def r24_expand_macro(body, name, file_src):
+    """replace every `NAME!(args)` in body by the (single) rule body of macro_rules! NAME found in file_src, `$x` substituted by the
+    argument text, `$( ... $x ... ) sep +` repeated over the arguments bound by the matcher's repetition.  Purely textual, like rustc's
+    expansion for this macro shape (comma separated fragments, at most one trailing repetition).  Returns (body, count, (start, end))."""
+    d_a, d_b, m_toks, b_toks = find_macro_rules(file_src, name)
+    matcher = _parse_matcher(m_toks)
+    # matcher must be comma separated single-token elements + optional trailing repetition
+    groups = []   # per comma-separated position: list of elements
+    cur = []
+    for el in matcher:
+        if el[0] == 'lit' and el[1] == ',':
+            groups.append(cur)
+            cur = []
+        else:
+            cur.append(el)
+    if cur:
+        groups.append(cur)
+    st = sig(lex(body))
+    edits = []
+    n = 0
+    i = 0
+    while i < len(st):
+        t = st[i]
+        if t.kind == 'id' and t.text == name and i + 2 < len(st) and st[i + 1].text == '!' and st[i + 2].text in ('(', '[', '{') \
+                and not (i > 0 and st[i - 1].text == '!'):
+            o = i + 2
+            c = match_close(st, o)
+            args = _split_args(body, st[o + 1:c])
+            env, reps = {}, []
+            gi = 0
+            ai = 0
+            ok = True
+            while gi < len(groups):
+                g = groups[gi]
+                if len(g) == 1 and g[0][0] == 'rep':
+                    inner, sep = g[0][1], g[0][2]
+                    if sep != ',':
+                        raise AnchorError(f'{name}!: repetition separator `{sep}` not supported')
+                    while ai < len(args):
+                        a = args[ai]
+                        e2 = {}
+                        k = 0
+                        for el in inner:
+                            if el[0] == 'lit':
+                                if k >= len(a) or a[k].text != el[1]:
+                                    ok = False
+                                k += 1
+                            else:
+                                e2[el[1]] = body[a[k].start:a[-1].end] if k < len(a) else ''
+                                k = len(a)
+                        reps.append(e2)
+                        ai += 1
+                    gi += 1
+                    continue
+                if ai >= len(args):
+                    ok = False
+                    break
+                a = args[ai]
+                k = 0
+                for el in g:
+                    if el[0] == 'lit':
+                        if k >= len(a) or a[k].text != el[1]:
+                            ok = False
+                        k += 1
+                    else:
+                        env[el[1]] = body[a[k].start:a[-1].end] if k < len(a) else ''
+                        k = len(a)
+                ai += 1
+                gi += 1
+            if not ok or ai != len(args):
+                raise AnchorError(f'{name}!: invocation does not match the macro rule')
+            # substitute in the body tokens (emitted with single spaces; `$x` -> text)
+            def subst(toks, e):
+                out, j = [], 0
+                while j < len(toks):
+                    u = toks[j]
+                    if u.text == '$' and j + 1 < len(toks) and toks[j + 1].text == '(':
+                        cc = match_close(toks, j + 1)
+                        sep2 = None
+                        k2 = cc + 1
+                        if k2 < len(toks) and toks[k2].text not in ('+', '*'):
+                            sep2 = toks[k2].text
+                            k2 += 1
+                        pieces = [subst(toks[j + 2:cc], dict(e, **r)) for r in reps]
+                        out.append((' ' + (sep2 or '') + ' ').join(pieces))
+                        j = k2 + 1
+                        continue
+                    if u.text == '$' and j + 1 < len(toks) and toks[j + 1].kind == 'id':
+                        nm = toks[j + 1].text
+                        if nm not in e:
+                            raise AnchorError(f'{name}!: `${nm}` is not bound by the matcher')
+                        out.append(e[nm])
+                        j += 2
+                        continue
+                    # punctuation that is adjacent in the macro text stays adjacent (`::`, `=>`, `->`, `&&` ...)
+                    if u.kind == 'p' and j + 1 < len(toks) and toks[j + 1].kind == 'p' and toks[j + 1].start == u.end and out is not None:
+                        glued = u.text
+                        while j + 1 < len(toks) and toks[j + 1].kind == 'p' and toks[j + 1].start == toks[j].end and toks[j + 1].text in (':', '=', '>', '&', '|', '-', '.', '<') and toks[j].text in (':', '=', '-', '&', '|', '.', '<', '>'):
+                            glued += toks[j + 1].text
+                            j += 1
+                        out.append(glued)
+                        j += 1
+                        continue
+                    out.append(u.text)
+                    j += 1
+                return ' '.join(out)
+            text = subst(b_toks, env)
+            # `a . b` spacing is harmless; `$fn . $event` becomes `self . messages`
+            end = st[c].end
+            if c + 1 < len(st) and st[c + 1].text == ';':
+                end = st[c + 1].end
+            edits.append((t.start, end, _keep_newlines(body[t.start:end], '{ ' + text + ' }')))
+            n += 1
+            i = c + 1
+            continue
+        i += 1
+    out, pos = [], 0
+    for a, b, rep in edits:
+        out.append(body[pos:a])
+        out.append(rep)
+        pos = b
+    out.append(body[pos:])
+    return ''.join(out), n, (d_a, d_b)
